@@ -26,7 +26,11 @@ _m(
     "setter after the first pass, compute_propagator_arrays() and a second pass on the same instance (intensity sums "
     "again; instance propagators times the inverse propagators of a freshly built problem with the new tilt == 1).  proj: same construction, overlap (M<=4, N<=3, roi), measured "
     "amplitudes exact zeros (0/20/80/100 %) or in [max(1e-3*scale, 1e-7), 2*scale], overall amplitude scale of exit waves "
-    "and measured data drawn from 1e-6, 1e-5, 1e-4, 1e-3, 1e-2, 0.1, 1, 10, 1e3 (all tolerances relative to the scale).  A case is NON-TRIVIAL when: shift - some shift "
+    "and measured data drawn from 1e-6, 1e-5, 1e-4, 1e-3, 1e-2, 0.1, 1, 10, 1e3 (all tolerances relative to the scale).  "
+    "The detector layout of the measured amplitudes is checked on every proj and chain case: DetectorPixelated.forward of "
+    "the exit waves (1..4 modes, batch 1..3 / scan batch, odd/even/non-square roi) against the float64 reference "
+    "fftshift(sum over modes |ortho fft2|^2), and, with the library's own detector as observer, "
+    "DetectorPixelated.forward(fourier_projection(A, x)) == A**2.  A case is NON-TRIVIAL when: shift - some shift "
     "component is non-integer on an even-length axis; prop - a propagator carries more than 0.01 rad of phase; adjoint - "
     "the index set contains a repeated index; chain - S >= 2 or M >= 2; proj - the measured amplitudes contain an exact "
     "zero or M >= 2.  distinct = SHA-1 of the canonical JSON of the whole case.",
@@ -53,6 +57,8 @@ _m(
         "history independence (a propagator obtained after any sequence of requests and setter calls equals the one a "
         "fresh instance with the same current tilt/energy/sampling/thickness returns) is read out of 'for all inputs': the "
         "operator is a function of its parameters only; on the clean tree the two are bitwise equal",
+        "detector reference: 1e-10 (complex128) / 1e-4 (complex64) of the pattern's total intensity per pixel; observer "
+        "check: the magnitude tolerance t propagated to intensities, t*(2A+t), plus the same rounding term",
         "real-valued arrays are outside the translation domain (the property quantifies over complex arrays; the real "
         "path takes .real, which is not unitary at the Nyquist frequency)",
         "scan grids have >= 2 points per axis and a field of view of >= 1 object pixel (a 1-point axis gives a "
